@@ -50,6 +50,9 @@ pub struct Sc {
     /// bytes written into the data area before the step: (address, value, size)
     #[serde(default)]
     pub poke: Vec<(u64, u64, u32)>,
+    /// the code area ends right after `bytes` (no NOP padding): instructions cut off by the end of the area
+    #[serde(default)]
+    pub no_pad: bool,
 }
 
 pub struct E5Engine;
@@ -354,7 +357,7 @@ fn cells() -> &'static Vec<(usize, Option<usize>, usize)> {
     })
 }
 
-pub const SAMPLES_QUICK: u64 = 6;
+pub const SAMPLES_QUICK: u64 = 8;
 pub const SAMPLES_THOROUGH: u64 = 64;
 
 fn gen_state(r: &mut Rng) -> (Vec<u64>, u64, u64) {
@@ -526,7 +529,7 @@ fn gen_insn(mode: &str, ci: usize, shape: Option<usize>, fault: &str, r: &mut Rn
                 }
             }
         };
-        match k % 6 {
+        match k % 8 {
             0 => {
                 // small dividend, divisor >= 1: completes (unless the divisor aliases the dividend)
                 gpr[3] = 0;
@@ -537,8 +540,16 @@ fn gen_insn(mode: &str, ci: usize, shape: Option<usize>, fault: &str, r: &mut Rn
                 gpr[3] = 0;
                 set_divisor(&mut gpr, &mut poke, (r.next() & mask) | 1);
             }
-            2 => set_divisor(&mut gpr, &mut poke, 0), // divide by zero
+            2 => set_divisor(&mut gpr, &mut poke, 0), // divide by zero, high half arbitrary
             3 => {
+                // divide by zero with a zero high half (a "fits in one word" fast path must still check)
+                gpr[3] = 0;
+                if bits == 8 {
+                    gpr[0] &= !0xff00;
+                }
+                set_divisor(&mut gpr, &mut poke, 0);
+            }
+            4 => {
                 // quotient does not fit: high half >= divisor
                 let d = 1 + (r.next() & 0xff);
                 set_divisor(&mut gpr, &mut poke, d);
@@ -548,8 +559,8 @@ fn gen_insn(mode: &str, ci: usize, shape: Option<usize>, fault: &str, r: &mut Rn
                     gpr[3] = (gpr[3] & !mask) | ((d + r.below(3)) & mask).max(d & mask);
                 }
             }
-            4 => {
-                // IDIV corner: MIN / -1 ; for DIV: the largest fitting quotient
+            5 => {
+                // IDIV corner: (MIN of the operand width) / -1 ; for DIV: the largest fitting quotient
                 if ins.mnemonic() == Mnemonic::Idiv {
                     set_divisor(&mut gpr, &mut poke, mask);
                     if bits == 8 {
@@ -565,6 +576,26 @@ fn gen_insn(mode: &str, ci: usize, shape: Option<usize>, fault: &str, r: &mut Rn
                     } else {
                         gpr[3] = (gpr[3] & !mask) | (mask - 1);
                         gpr[0] = (gpr[0] & !mask) | 1;
+                    }
+                }
+            }
+            6 => {
+                // IDIV corner: (MIN of the double-width dividend) / -1 ; for DIV: high half = divisor - 1 (largest that fits)
+                if ins.mnemonic() == Mnemonic::Idiv {
+                    set_divisor(&mut gpr, &mut poke, mask);
+                    if bits == 8 {
+                        gpr[0] = (gpr[0] & !0xffff) | 0x8000;
+                    } else {
+                        gpr[3] = (gpr[3] & !mask) | (1u64 << (bits - 1));
+                        gpr[0] &= !mask;
+                    }
+                } else {
+                    let d = 2 + (r.next() & 0x7f);
+                    set_divisor(&mut gpr, &mut poke, d);
+                    if bits == 8 {
+                        gpr[0] = (gpr[0] & !0xffff) | ((d - 1) << 8) | (r.next() & 0xff);
+                    } else {
+                        gpr[3] = (gpr[3] & !mask) | (d - 1);
                     }
                 }
             }
@@ -595,11 +626,12 @@ fn gen_insn(mode: &str, ci: usize, shape: Option<usize>, fault: &str, r: &mut Rn
         flips: vec![],
         flip_at: 0,
         poke,
+        no_pad: false,
     })
 }
 
 fn trivial(mode: &str) -> Sc {
-    Sc { mode: mode.into(), code_name: "Nopd".into(), shape: "reg".into(), fault: "none".into(), bytes: "90".into(), gpr: vec![0, 0, 0, 0, 0, 0, STACK + 0x800, 0, 0, 0, 0, 0, 0, 0, 0, 0], xmm_seed: 1, flags: 0, fs: 0, gs: 0, data_seed: 1, prot_data: 3, prot_stack: 3, prot_code: 5, extra_steps: 0, flips: vec![], flip_at: 0, poke: vec![] }
+    Sc { mode: mode.into(), code_name: "Nopd".into(), shape: "reg".into(), fault: "none".into(), bytes: "90".into(), gpr: vec![0, 0, 0, 0, 0, 0, STACK + 0x800, 0, 0, 0, 0, 0, 0, 0, 0, 0], xmm_seed: 1, flags: 0, fs: 0, gs: 0, data_seed: 1, prot_data: 3, prot_stack: 3, prot_code: 5, extra_steps: 0, flips: vec![], flip_at: 0, poke: vec![], no_pad: false }
 }
 
 fn gen_c06(seed: u64, idx: u64, thorough: bool) -> Sc {
@@ -725,7 +757,17 @@ fn gen_c19(seed: u64, idx: u64, thorough: bool) -> Sc {
                     let mut s = s;
                     s.mode = "c19".into();
                     // keep the solved registers but randomise a few others
-                    return Sc { prot_data: r.below(8) as u32, prot_stack: *r.pick(&[3u32, 3, 1, 0]), ..s };
+                    let mut s = Sc { prot_data: r.below(8) as u32, prot_stack: *r.pick(&[3u32, 3, 1, 0]), ..s };
+                    if r.chance(1, 3) {
+                        s.no_pad = true;
+                        let mut b = from_hex(&s.bytes);
+                        if b.len() > 1 && r.chance(2, 3) {
+                            let keep = r.range(1, b.len() as u64 - 1) as usize;
+                            b.truncate(keep);
+                            s.bytes = to_hex(&b);
+                        }
+                    }
+                    return s;
                 }
                 None => vec![0x90],
             }
@@ -743,6 +785,16 @@ fn gen_c19(seed: u64, idx: u64, thorough: bool) -> Sc {
             code
         }
     };
+    // a third of the single-step runs: the executable area ends with the byte string, and valid
+    // encodings are cut short, so the instruction is truncated by the end of the area
+    let mut bytes = bytes;
+    if sc.mode == "c19" && r.chance(1, 3) {
+        sc.no_pad = true;
+        if bytes.len() > 1 && r.chance(2, 3) {
+            let keep = r.range(1, bytes.len() as u64 - 1) as usize;
+            bytes.truncate(keep);
+        }
+    }
     sc.bytes = to_hex(&bytes);
     sc.gpr = gpr;
     sc.flags = flags;
@@ -774,7 +826,9 @@ fn setup_masked(sc: &Sc, ctx: &mut Ctx, hooks: bool, only: Option<([bool; 16], [
     install_ax_rng(rng_seed);
     let mut code = from_hex(&sc.bytes);
     let real_len = code.len();
-    code.extend_from_slice(&[0x90; 24]);
+    if !sc.no_pad || code.is_empty() {
+        code.extend_from_slice(&[0x90; 24]);
+    }
     let entry = if sc.mode == "c19_midrun" { CODE } else { CODE };
     let mut ax = match catch(|| Axecutor::new(&code, CODE, entry)) {
         Ok(Ok(a)) => a,
